@@ -72,6 +72,7 @@ QUOTA_QUICK = {'recognize_number': 450, 'recognize_ordinal': 100, 'recognize_per
 DT_CULTURES_QUICK = ('en-us', 'zh-cn')
 # model construction dominates a cold process (about a minute for all cultures): the quick pool keeps to these
 CULTURES_QUICK = ('en-us', 'zh-cn', 'es-es', 'de-de', 'ja-jp', 'pt-br')
+NWU_CULTURES_QUICK = ('en-us', 'zh-cn', 'es-es')
 
 
 def build_pool(ctx):
@@ -82,6 +83,8 @@ def build_pool(ctx):
         if fn is None or not query:
             continue
         if not ctx.thorough and culture not in CULTURES_QUICK:
+            continue
+        if not ctx.thorough and rec == 'NumberWithUnit' and culture not in NWU_CULTURES_QUICK:
             continue
         if fn == 'recognize_datetime':
             if ref is None or (not ctx.thorough and culture not in DT_CULTURES_QUICK):
@@ -337,9 +340,16 @@ def correspond(ctx):
     jobs = {'a_seq_cold': {'pool': pool, 'mode': 'seq'},
             'c_perm_cold': {'pool': pool, 'mode': 'seq', 'order': perm},
             'e_fresh_thread_cold': {'pool': pool, 'mode': 'fresh_thread'}}
+    # threaded evaluation costs about three times the sequential one (GIL hand-over): the thread disciplines run
+    # on a seeded subset that always contains the fraction witnesses and every function
+    nsub = 1500 if ctx.thorough else 400
+    frac = [i for i in range(n) if (pool[i][0], pool[i][1], pool[i][2]) in set(FRACTIONS)]
+    rest = [i for i in range(n) if i not in set(frac)]
+    sub = sorted(frac + r.sample(rest, min(nsub, len(rest))))
+    subpool = [pool[i] for i in sub]
     for k in cold_threads:
-        jobs['d_threads_%d_cold' % k] = {'pool': pool, 'mode': 'threads', 'threads': k, 'seed': seed * 100 + k,
-                                         'copies': 2}
+        jobs['d_threads_%d_cold' % k] = {'pool': subpool, 'mode': 'threads', 'threads': k, 'seed': seed * 100 + k,
+                                         'copies': 2 if ctx.thorough else 1}
     for i in single_idx:
         jobs['a1_single_%d' % i] = {'pool': [pool[i]], 'mode': 'seq'}
     results = {}
@@ -347,7 +357,11 @@ def correspond(ctx):
         futs = {name: ex.submit(child, job) for name, job in jobs.items()}
         # meanwhile, in this process: (b) warm twice, (c) permuted warm, (d) threads on the warm cache, (e) fresh thread
         inproc = {}
+        import time as _t
+        tm = {}
+        t0 = _t.time()
         inproc['b_first'] = c02worker.run_job({'pool': pool, 'mode': 'seq'})
+        tm['b_first'] = round(_t.time() - t0, 1)
         inproc['b_warm'] = c02worker.run_job({'pool': pool, 'mode': 'seq'})
         perm2 = list(range(n))
         ctx.rng('perm2').shuffle(perm2)
@@ -355,9 +369,12 @@ def correspond(ctx):
         inproc['e_fresh_thread_warm'] = c02worker.run_job({'pool': pool, 'mode': 'fresh_thread'})
         for k in warm_threads:
             inproc['d_threads_%d_warm' % k] = c02worker.run_job(
-                {'pool': pool, 'mode': 'threads', 'threads': k, 'seed': seed * 100 + 50 + k, 'copies': 1})
+                {'pool': subpool, 'mode': 'threads', 'threads': k, 'seed': seed * 100 + 50 + k, 'copies': 1})
+        tm['inproc_total'] = round(_t.time() - t0, 1)
         for name, f in futs.items():
             results[name] = f.result()
+        tm['with_children'] = round(_t.time() - t0, 1)
+        ctx.extra['timings_s'] = tm
     results.update(inproc)
     canon = {i: results['a_seq_cold']['answers'][str(i)][0][1] for i in range(n)}
     for i in range(n):
@@ -366,6 +383,8 @@ def correspond(ctx):
     exc = [i for i in range(n) if canon[i].startswith('EXC')]
     if exc:
         ctx.extra['pool_tuples_raising'] = [(pool[i], canon[i]) for i in exc[:5]]
+    ctx.extra['worker_wall_s'] = {name: res.get('wall_s') for name, res in results.items()
+                                  if not name.startswith('a1_')}
     ctx.extra['precisions'] = {name: (res.get('importing_thread_prec'), res.get('worker_thread_prec'))
                                for name, res in results.items() if not name.startswith('a1_')}
     # which differences does "this thread runs at precision 28 instead of 15" explain? re-run the differing tuples
@@ -374,7 +393,7 @@ def correspond(ctx):
     evaluations = 0
     for name, res in results.items():
         for key, lst in res['answers'].items():
-            i = single_idx_of(name, key)
+            i = single_idx_of(name, key, sub)
             for where, val in lst:
                 evaluations += 1
                 if val != canon[i]:
@@ -421,7 +440,9 @@ def correspond(ctx):
     ctx.sample({'tuple': pool[0], 'canonical': canon[0][:300]})
 
 
-def single_idx_of(name, key):
+def single_idx_of(name, key, sub=None):
     if name.startswith('a1_single_'):
         return int(name[len('a1_single_'):])
+    if name.startswith('d_threads_'):
+        return sub[int(key)]
     return int(key)
